@@ -216,7 +216,7 @@ class Impl:
         if t['k'] != 'obj':
             # customised primitives are shared by all signatures of a run (spyne keeps every variant of a
             # type in per-class registries; thousands of throw-away variants make customize() slow)
-            pkey = (t['k'], t.get('kind'), f['many'], f.get('wrap'), f['min'], f['max'], f.get('nillable', True),
+            pkey = (t['k'], t.get('kind'), t.get('enc') if t.get('encd') else None, f['many'], f.get('wrap'), f['min'], f['max'], f.get('nillable', True),
                     core.canon(f.get('dflt')), f.get('ro'), f.get('dfac'))
             nil = {} if f.get('nillable', True) else {'nillable': False}
             if f.get('dflt') is not None and f.get('dfac'):
@@ -228,6 +228,8 @@ class Impl:
             c = Impl._prims.get(pkey)
             if c is None:
                 base = self.P[t['k']]
+                if t['k'] == 'bytes' and t.get('encd'):
+                    base = base(encoding={'hex': 'hex', 'base64': 'base64', 'urlsafe': 'urlsafe_base64'}[t['enc']])
                 if t['k'] == 'int' and t.get('kind') in INT_KINDS:
                     import spyne
                     base = getattr(spyne, INT_KINDS[t['kind']])
@@ -262,15 +264,21 @@ class Impl:
             return {'o': [[f['n'], self.to_val(getattr(x, py_of(f), None), f['many'], f['t'])] for f in t['fields']]}
         return val_of_native(x)
 
-    def from_val(self, v, many, t):
+    def from_val(self, v, many, t, memo=None):
+        """`memo` (a dict): equal sub-objects of one class become ONE instance (shared, not copied)"""
         if v is None:
             return None
         if many:
-            return [self.from_val(e, False, t) for e in v['l']]
+            return [self.from_val(e, False, t, memo) for e in v['l']]
         if t['k'] == 'obj':
+            key = (t['cid'], core.canon(v))
+            if memo is not None and key in memo:
+                return memo[key]
             inst = self.cls_of(t)()
             for (n, fv), f in zip(v['o'], t['fields']):
-                setattr(inst, py_of(f), self.from_val(fv, f['many'], f['t']))
+                setattr(inst, py_of(f), self.from_val(fv, f['many'], f['t'], memo))
+            if memo is not None:
+                memo[key] = inst
             return inst
         return native_leaf(v)
 
@@ -318,11 +326,12 @@ class Impl:
             return {'crash': type(e).__name__}
         return {'ok': self.root_val([getattr(inst, py_of(f), None) for f in self.fields])}
 
-    def encode_val(self, val):
+    def encode_val(self, val, share=False):
         """object_to_simple_dict on the request object built from `val`; canonical list sorted by key"""
         inst = self.in_message()
+        memo = {} if share else None
         for (n, fv), f in zip(val['o'], self.fields):
-            setattr(inst, py_of(f), self.from_val(fv, f['many'], f['t']))
+            setattr(inst, py_of(f), self.from_val(fv, f['many'], f['t'], memo))
         d = self.app.in_protocol.object_to_simple_dict(self.in_message, inst)
         out = []
         for k, v in d.items():
@@ -353,8 +362,17 @@ class Impl:
     def leaf_val(x):
         return val_of_native(x)
 
-    def text_of(self, kind, x):
-        return self.app.in_protocol.to_unicode(self.P[kind], x)
+    def text_of(self, kind, x, key=None):
+        ty = self.P[kind]
+        if key is not None and kind == 'bytes':
+            from spyne.protocol.dictdoc.simple import RE_HTTP_ARRAY_INDEX
+            sti = self.in_message.get_simple_type_info_with_prot(self.in_message, self.app.in_protocol,
+                                                                 hier_delim=self.app.in_protocol.hier_delim)
+            m = sti.get(RE_HTTP_ARRAY_INDEX.sub('', key))
+            if m is not None:
+                ty = m.type
+        r = self.app.out_protocol.to_unicode(ty, x)
+        return r if isinstance(r, str) else str(r)      # (a key the harness cannot place: the comparison will tell)
 
     def sti(self):
         prot = self.app.in_protocol
@@ -503,7 +521,12 @@ class Gen:
                 out.append(fld(nm, t, many, wrap, 0, mx))
             else:
                 kind = rng.choice(EXT_ALL) if (self.ext and rng.random() < 0.4) else rng.choice(PRIMS)
-                pt = {'k': 'bytes', 'enc': 'urlsafe'} if kind == 'bytes' else P(kind)
+                pt = P(kind)
+                if kind == 'bytes':
+                    enc = rng.choice(['hex', 'base64', 'urlsafe', None, None])
+                    pt = {'k': 'bytes', 'enc': enc or 'urlsafe'}
+                    if enc:
+                        pt['encd'] = True       # the member declares its encoding
                 many = rng.random() < 0.3
                 wrap = rng.choice(['array', 'occurs']) if many else None
                 mx = rng.choice([None, 2, 5, 20]) if wrap == 'occurs' else None
@@ -612,7 +635,7 @@ def strip_marker(v):
     return v
 
 
-def leaf_text(v):
+def leaf_text(v, t=None):
     if 'dt' in v or 'date' in v:
         return native_leaf(v).isoformat()
     if 'dec' in v:
@@ -623,7 +646,9 @@ def leaf_text(v):
         return 'true' if v['b'] else 'false'
     if 'x' in v:
         import base64
-        return base64.urlsafe_b64encode(bytes(v['x'])).decode('ascii')
+        enc = (t or {}).get('enc', 'urlsafe')
+        b = bytes(v['x'])
+        return b.hex() if enc == 'hex' else (base64.b64encode(b) if enc == 'base64' else base64.urlsafe_b64encode(b)).decode('ascii')
     return uncps(v['s'])
 
 
@@ -638,9 +663,9 @@ def spell(rng, fields, val, delim, prefix='', sparse=False, idx_style=0):
         t = f['t']
         if t['k'] != 'obj':
             if f['many']:
-                out += [(key, leaf_text(x)) for x in v['l']]
+                out += [(key, leaf_text(x, t)) for x in v['l']]
             else:
-                out.append((key, leaf_text(v)))
+                out.append((key, leaf_text(v, t)))
         elif not f['many']:
             if v.get('marker'):
                 out.append((key, 'empty'))
@@ -779,6 +804,20 @@ def measure_facts():
         keys = set()
     f['subNameScope'] = ('member' if keys == {'o', 'o.qty', 'o.nm'} else
                          'container' if keys == {'o', 'o.o', 'o.nm'} or keys == {'o', 'o.o'} else 'other')
+    # a declared ByteArray encoding against the protocol's suggestion
+    w = fact_witness('bytesDeclaredWins')
+    r, _, _ = Impl(w['fields'], cfg0).get(w['qs'])
+    f['bytesDeclaredWins'] = r == {'ok': w['expected']}
+    # which instances object_to_simple_dict refuses to enter a second time
+    w = fact_witness('encGuard')
+    try:
+        impl_ = Impl(w['fields'], cfg0)
+        enc, raw = impl_.encode_val(w['val'], share=True)
+        keys = sorted(raw)
+    except Exception:
+        keys = None
+    f['encGuard'] = ('rootOnly' if keys == ['a.x', 'b.x', 'l[0].x', 'l[1].x', 'l[2].x'] else
+                     'visited' if keys == ['a.x'] or keys == ['a.x', 'l[1].x'] else 'other')
     # when a GET is answered with the WSDL
     from spyne.server.wsgi import WsgiApplication
     wa = Impl([fld('a', P('int'))], cfg0).wsgi
@@ -799,7 +838,7 @@ WSDL_PROBES = ['wsdl', 'WSDL', 'Wsdl=1&a=2', 'wsdl=', 'a=1&wsdl', 'a=x.wsdl', 'a
 
 
 GOOD = {'keyOrder': 'natural', 'tagScope': 'perBranch', 'freqScope': 'perMember', 'subNameScope': 'member',
-        'wsdlRule': 'firstName'}
+        'wsdlRule': 'firstName', 'encGuard': 'rootOnly', 'bytesDeclaredWins': True}
 GOOD_C05 = {'freqTouch': True}      # soft-validation switches: reported by part_c05 (property C05), modelled either way
 
 
@@ -810,6 +849,16 @@ def fact_witness(k):
         val = {'o': [[cps('o'), {'o': [[cps('nm'), {'s': cps('pen')}], [cps('qty'), {'i': '3'}]]}]]}
         return {'op': 'documented', 'fields': [fld('o', item, py='order')], 'cfg': {'strict': False, 'soft': False, 'delim': cps('.')},
                 'qs': 'o.nm=pen&o.qty=3', 'expected': val}
+    if k == 'bytesDeclaredWins':
+        val = {'o': [[cps('k'), {'x': [0xde, 0xad, 0xbe, 0xef]}]]}
+        return {'op': 'documented', 'fields': [fld('k', {'k': 'bytes', 'enc': 'hex', 'encd': True})],
+                'cfg': {'strict': False, 'soft': False, 'delim': cps('.')}, 'qs': 'k=deadbeef', 'expected': val}
+    if k == 'encGuard':
+        pt = obj(6, [fld('x', P('int'))])
+        p0, p1 = {'o': [[cps('x'), {'i': '1'}]]}, {'o': [[cps('x'), {'i': '2'}]]}
+        val = {'o': [[cps('a'), p0], [cps('b'), p0], [cps('l'), {'l': [p0, p1, p0]}]]}
+        return {'op': 'roundtrip', 'fields': [fld('a', pt), fld('b', pt), fld('l', pt, True)],
+                'cfg': {'strict': False, 'soft': False, 'delim': cps('.')}, 'val': val, 'share': True}
     if k == 'wsdlRule':
         doc = obj(5, [fld('name', P('str')), fld('kind', P('str'))])
         val = {'o': [[cps('doc'), {'o': [[cps('name'), {'s': cps('stock.wsdl')}], [cps('kind'), {'s': cps('soap')}]]}],
@@ -855,11 +904,13 @@ def facts03 : Facts03 where
   intEmptyIsNone := %s
   subNameScope := .%s
   wsdlRule := .%s
+  encGuard := .%s
+  bytesDeclaredWins := %s
 
 end SpyneModel.Generated
 ''' % (f['keyOrder'], f['tagScope'], f['freqScope'], b(f['freqTouch']),
        '"%s".toList' % f['emptyMarker'], ', '.join(ch(c) for c in f['pairSeps']),
-       b(f['plusIsSpace']), b(f['boolFormWords']), b(f['intEmptyIsNone']), f['subNameScope'], f['wsdlRule'])
+       b(f['plusIsSpace']), b(f['boolFormWords']), b(f['intEmptyIsNone']), f['subNameScope'], f['wsdlRule'], f['encGuard'], b(f['bytesDeclaredWins']))
 
 
 # ------------------------------------------------------------------------------------ fixed corpus
@@ -929,6 +980,8 @@ def run(ctx):
                 r0, _, _ = Impl(w['fields'], w['cfg']).get(w['qs'])
                 r = None if 'fault' in r0 else 'soft validation lets %r through although member x is mandatory: %s' % (
                     w['qs'], core.canon(r0)[:200])
+            elif w['op'] == 'roundtrip':
+                r = check_roundtrip(w['fields'], w['cfg'], w['val'], w.get('share', False))
             else:
                 r = check_documented(ctx, w['fields'], w['cfg'], w['qs'], w['expected'], report=False)
             if r is not None:
@@ -968,6 +1021,7 @@ def run(ctx):
     t3_bare(ctx, add)
     t3_in_header(ctx, add)
     t3_return_styles(ctx, add)
+    t3_shared_headers(ctx)
     t3_conflict(ctx)
     t3_novalidate(ctx)
     t2_returns(ctx, g, add)
@@ -982,7 +1036,7 @@ def run(ctx):
         a, b = impl, mod
         if q['op'] in ('flat.decode', 'http.get', 'http.get.decl', 'hdr.in'):
             a, b = outcome_class(impl), outcome_class(mod)
-        if q['op'] in ('flat.encode', 'sti', 'sti.decl'):
+        if q['op'] in ('flat.encode', 'flat.encode.shared', 'sti', 'sti.decl'):
             b = sorted(mod)
         if a != b:
             ctx.disagree(q['op'], show_q(q), a, b)
@@ -1110,22 +1164,28 @@ def run_signature(ctx, g, sig, add, facts, model_ok):
                     add({'op': 'flat.decode', 'cfg': cfg, 'fields': mf, 'doc': doc}, get_impl(sig, cfg).decode_doc(doc), len(doc) > 0)
         # object -> flat dict -> object
         rt_val = g.value(sig, 4, markers=False)
+        share = rng.random() < 0.5 and has_feature(sig, lambda f: f['t']['k'] == 'obj')
+        if share:
+            rt_val = make_shared(rng, sig, rt_val)     # the very same instance at several places
+            ctx.hit('roundtrip:shared-instances')
         impl0 = get_impl(sig, base_cfg)
-        enc, raw = impl0.encode_val(rt_val)
+        enc, raw = impl0.encode_val(rt_val, share=share)
         if use_model:
             add({'op': 'flat.encode', 'delim': cps(delim), 'fields': mf, 'inst': rt_val}, sorted(enc))
+            if share:
+                add({'op': 'flat.encode.shared', 'delim': cps(delim), 'fields': mf, 'inst': labelled(sig, rt_val)}, sorted(enc))
         doc = []
         for k, v in raw.items():
             kind = leaf_kind(sig, k, delim)
             if isinstance(v, list) and impl0.key_many(k):
                 if v:
-                    doc.append([cps(k), [cps(impl0.text_of(kind, x)) for x in v]])
+                    doc.append([cps(k), [cps(impl0.text_of(kind, x, k)) for x in v]])
             elif v == 'empty' and impl0.is_complex_key(k):
                 doc.append([cps(k), [cps('empty')]])
             elif v is None:
                 doc.append([cps(k), [None]])          # a mandatory member that is None: the key without `=`
             else:
-                doc.append([cps(k), [cps(impl0.text_of(kind, v))]])
+                doc.append([cps(k), [cps(impl0.text_of(kind, v, k))]])
         for strict in (False, True):
             cfg = {'strict': strict, 'soft': False, 'delim': cps(delim)}
             rng.shuffle(doc)
@@ -1139,7 +1199,7 @@ def run_signature(ctx, g, sig, add, facts, model_ok):
                 ctx.hit('t3-fail:' + fid)
                 ctx.finding(fid, 'object_to_simple_dict followed by simple_dict_to_object (strict_arrays=%s) does not give the '
                             'object back: flat=%s got %s' % (strict, core.canon(show_q({'doc': doc})['doc_text'])[:300], core.canon(back)[:300]),
-                            {'op': 'roundtrip', 'fields': sig, 'cfg': cfg, 'val': rt_val})
+                            {'op': 'roundtrip', 'fields': sig, 'cfg': cfg, 'val': rt_val, 'share': share})
     # undocumented / garbled documents: model and implementation must still agree (T2 only)
     if use_model:
         for _ in range(6 if ctx.thorough else 3):
@@ -1201,6 +1261,25 @@ def leaf_kind(fields, key, delim):
     return go(fields, '') or 'str'
 
 
+def leaf_type(fields, key, delim):
+    """type of the primitive member a flat key denotes (None: no such member)"""
+    import re
+    k = re.sub(r'\[[0-9]+\]', '', key)
+
+    def go(fs, prefix):
+        for f in fs:
+            p = prefix + uncps(f['n'])
+            if f['t']['k'] != 'obj':
+                if p == k:
+                    return f['t']
+            else:
+                r = go(f['t']['fields'], p + delim)
+                if r:
+                    return r
+        return None
+    return go(fields, '')
+
+
 def garbled_doc(rng, g, sig, keys, delim):
     """a flat document outside the documented notation: indexes missing, doubled, on the wrong segment, with
     leading zeros; unknown keys; markers and junk values"""
@@ -1220,10 +1299,14 @@ def garbled_doc(rng, g, sig, keys, delim):
             out.append(s)
         key = delim.join(out)
         kind = leaf_kind(sig, key, delim)
+        lt = leaf_type(sig, key, delim)
         vals = []
         for _ in range(rng.choice([1, 1, 1, 2, 3])):
             r = rng.random()
-            if r < 0.1:
+            if kind == 'bytes':
+                # text outside the alphabet of the declared codec is the leaf codecs' business (C08): canonical text only
+                vals.append(None if r < 0.1 else leaf_text(g.leaf(kind), lt))
+            elif r < 0.1:
                 vals.append(None)
             elif r < 0.2:
                 vals.append('empty')
@@ -1398,6 +1481,91 @@ def t3_history(ctx, add, c05=False):
                             'after a served request and %s_field(%r, %s) on the argument class, %r (outside the facets of '
                             'the new member) is not rejected by soft validation: %s' % (how, nk, kind or newt['k'], qs, core.canon(r)[:300]),
                             dict(hobj, qs=qs, good=False))
+
+
+def make_shared(rng, fields, val):
+    """copy sub-objects of `val` to other places of the same class (another member, another array position): with
+    Impl.from_val(memo) the equal copies become ONE shared instance"""
+    import copy
+    val = copy.deepcopy(val)
+    by_cls = {}
+
+    def collect(fs, v):
+        for (n, x), f in zip(v['o'], fs):
+            if f['t']['k'] == 'obj' and x is not None:
+                for e in (x['l'] if f['many'] else [x]):
+                    by_cls.setdefault(f['t']['cid'], []).append(e)
+                    collect(f['t']['fields'], e)
+    collect(fields, val)
+
+    def place(fs, v):
+        for i, ((n, x), f) in enumerate(zip(v['o'], fs)):
+            t = f['t']
+            if t['k'] != 'obj':
+                continue
+            pool = by_cls.get(t['cid'], [])
+            if f['many']:
+                if x is not None and x['l'] and rng.random() < 0.6:
+                    mx = f['max'] or 99
+                    for _ in range(rng.choice([1, 2])):
+                        if len(x['l']) < mx:
+                            x['l'].insert(rng.randrange(len(x['l']) + 1), copy.deepcopy(rng.choice(pool)))
+                for e in (x['l'] if x else []):
+                    place(t['fields'], e)
+            else:
+                if pool and rng.random() < 0.5:
+                    v['o'][i][1] = x = copy.deepcopy(rng.choice(pool))
+                if x is not None:
+                    place(t['fields'], x)
+    place(fields, val)
+    return val
+
+
+def labelled(fields, val, memo=None):
+    """the value with the identity of every object (equal objects of one class = one instance, as Impl.from_val(memo))"""
+    memo = {} if memo is None else memo
+
+    def lst(f, x):
+        d = {'l': [go(f['t'], e) for e in x['l']]}
+        if f['t']['k'] == 'obj':
+            d['objs'] = True
+        return d
+
+    def go(t, v):
+        if v is None:
+            return None
+        if t['k'] != 'obj':
+            return v
+        key = (t['cid'], core.canon(v))
+        if key not in memo:
+            memo[key] = len(memo) + 1
+        return {'id': memo[key], 'o': [[n, (None if x is None else
+                                          (lst(f, x) if f['many'] else go(f['t'], x)))]
+                                         for (n, x), f in zip(v['o'], t['fields'])]}
+    return {'id': 0, 'o': [[n, (None if x is None else (lst(f, x) if f['many'] else go(f['t'], x)))]
+                           for (n, x), f in zip(val['o'], fields)]}
+
+
+def check_roundtrip(fields, cfg, val, share):
+    impl = Impl(fields, cfg)
+    enc, raw = impl.encode_val(val, share=share)
+    delim = uncps(cfg['delim'])
+    doc = []
+    for k, v in raw.items():
+        kind = leaf_kind(fields, k, delim)
+        if isinstance(v, list) and impl.key_many(k):
+            if v:
+                doc.append([cps(k), [cps(impl.text_of(kind, x, k)) for x in v]])
+        elif v == 'empty' and impl.is_complex_key(k):
+            doc.append([cps(k), [cps('empty')]])
+        elif v is None:
+            doc.append([cps(k), [None]])
+        else:
+            doc.append([cps(k), [cps(impl.text_of(kind, v, k))]])
+    back = impl.decode_doc(doc)
+    if back == {'ok': val}:
+        return None
+    return 'flat=%s got %s' % (core.canon(show_q({'doc': doc})['doc_text'])[:300], core.canon(back)[:300])
 
 
 def fill_defaults(fields, val):
@@ -1635,6 +1803,37 @@ def t3_return_styles(ctx, add):
             ctx.hit('t3-fail:return-style')
             ctx.finding('return-style:' + style, 'result handed over as %r (chunked=%s): %r %r %r' % (style, chunked, status, hd, body[:80]),
                         {'op': 'return-style', 'style': style, 'chunked': chunked})
+
+
+def t3_shared_headers(ctx):
+    """a declared out-header whose members are objects, the SAME instance at two members / twice in a list: every
+    occurrence is written as its response headers (`X-Read.Limit`, `X-Write.Limit`, `X-Many[2].Limit`)"""
+    rng = ctx.rng
+    lim = obj(7900, [fld('Limit', P('int')), fld('Unit', P('str'))])
+    hf = [fld('X-Read', lim), fld('X-Write', lim), fld('X-Many', lim, True), fld('X-N', P('int'))]
+    units = ['req/s', 'kB', 'x', 'per day']
+    for i in range(24 if ctx.thorough else 8):
+        impl = get_impl([fld('a', P('int'))], None, 'str', hf)
+        mk = lambda: {'o': [[cps('Limit'), {'i': str(rng.randrange(1000))}], [cps('Unit'), rng.choice([None, {'s': cps(rng.choice(units))}])]]}
+        l0, l1 = mk(), mk()
+        hv = {'o': [[cps('X-Read'), rng.choice([l0, l0, None])], [cps('X-Write'), rng.choice([l0, l1])],
+                    [cps('X-Many'), rng.choice([None, {'l': [l0, l1, l0][:rng.choice([1, 2, 3])]}])], [cps('X-N'), {'i': '7'}]]}
+        memo = {}
+        hdr_obj = impl.hdr_cls()
+        for (n, v), h in zip(hv['o'], hf):
+            setattr(hdr_obj, uncps(n), impl.from_val(v, h['many'], h['t'], memo))
+        impl.retval, impl.out_header = 'ok', hdr_obj
+        r, st, body = impl.get('a=1')
+        impl.retval, impl.out_header = None, None
+        ctx.cov['traces_validated_against_impl'] += 1
+        exp = sorted(spell(rng, hf, hv, '.'))
+        got = sorted((k, v) for k, v in st.get('headers', []) if k.startswith('X-'))
+        shared = len(memo) < sum(1 for _, v in hv['o'][:2] if v is not None) + len((hv['o'][2][1] or {'l': []})['l'])
+        ctx.hit('out-header:objects:%s' % ('shared-instance' if shared else 'distinct'))
+        if not st.get('status', '').startswith('200') or got != exp:
+            ctx.hit('t3-fail:shared-headers')
+            ctx.finding('return:out-header-objects', 'out-header %s (equal objects are one shared instance): response headers %r, '
+                        'expected %r' % (core.canon(hv)[:300], got, exp), {'op': 'shared-headers', 'hv': hv, 'expected': exp})
 
 
 def t3_conflict(ctx):
@@ -2235,6 +2434,20 @@ def replay(ctx, obj):
             print(fid, ':', what[:400])
         print('style %r, chunked=%s: %s' % (obj['style'], obj['chunked'], 'still wrong' if c.found else 'as expected'))
         return 1 if c.found else 0
+    if op == 'shared-headers':
+        lim = obj(7900, [fld('Limit', P('int')), fld('Unit', P('str'))])
+        hf = [fld('X-Read', lim), fld('X-Write', lim), fld('X-Many', lim, True), fld('X-N', P('int'))]
+        impl = Impl([fld('a', P('int'))], None, 'str', hf)
+        memo, hdr_obj = {}, impl.hdr_cls()
+        for (n, v), h in zip(obj['hv']['o'], hf):
+            setattr(hdr_obj, uncps(n), impl.from_val(v, h['many'], h['t'], memo))
+        impl.retval, impl.out_header = 'ok', hdr_obj
+        r, st, body = impl.get('a=1')
+        got = sorted([k, v] for k, v in st.get('headers', []) if k.startswith('X-'))
+        print('out-header:', core.canon(obj['hv'])[:500], '(equal objects = one instance)')
+        print('expected  :', obj['expected'])
+        print('impl      :', got, st.get('status'))
+        return 0 if got == sorted(list(x) for x in obj['expected']) else 1
     if op == 'conflict':
         try:
             Impl(obj['fields'], obj['cfg']).sti()
@@ -2277,20 +2490,22 @@ def replay(ctx, obj):
         return 0 if obj['expected'] in r else 1
     if op == 'roundtrip':
         impl = Impl(obj['fields'], obj['cfg'])
-        enc, raw = impl.encode_val(obj['val'])
+        enc, raw = impl.encode_val(obj['val'], share=obj.get('share', False))
+        if obj.get('share'):
+            print('(equal sub-objects of one class are ONE shared instance)')
         delim = uncps(obj['cfg']['delim'])
         doc = []
         for k, v in raw.items():
             kind = leaf_kind(obj['fields'], k, delim)
             if isinstance(v, list) and impl.key_many(k):
                 if v:
-                    doc.append([cps(k), [cps(impl.text_of(kind, x)) for x in v]])
+                    doc.append([cps(k), [cps(impl.text_of(kind, x, k)) for x in v]])
             elif v == 'empty' and impl.is_complex_key(k):
                 doc.append([cps(k), [cps('empty')]])
             elif v is None:
                 doc.append([cps(k), [None]])
             else:
-                doc.append([cps(k), [cps(impl.text_of(kind, v))]])
+                doc.append([cps(k), [cps(impl.text_of(kind, v, k))]])
         back = impl.decode_doc(doc)
         print('object  :', core.canon(obj['val']))
         print('flat    :', raw)
